@@ -1,4 +1,5 @@
 import Secp.Proofs.Ecdsa
+import Secp.Props.C03
 /-
   Props/C07 — public-key recovery returns the signer's key in every signature form.
   Model: `recoverM`, `exportM`, `exportCompactM`, `parseCompactM`.  Spec: `ecdsaRecover` (SEC1 §4.1.6).
@@ -32,5 +33,11 @@ theorem parse_exportCompact (r s v : Nat) (comp : Bool) (hr0 : 0 < r) (hr : r < 
     parseCompactM (exportCompactM r s v true (if comp then 31 else 27)) =
       .ok ((exportM r s v).1, (exportM r s v).2.1, (exportM r s v).2.2, comp) :=
   Secp.Proofs.Ecdsa.parse_exportCompact r s v comp hr0 hr hs0 hs hv
+
+/-! ### unconditional form -/
+
+theorem recover_iff_unconditional (h : Bytes) (r s v : Nat) (hr0 : 0 < r) (hr : r < N) (hs : s < N) (hv : v < 4) :
+    (match recoverM h r s v with | .ok q => some q | .error _ => none) = ecdsaRecover h r s v :=
+  recover_iff Secp.Props.C03.pointSpec h r s v hr0 hr hs hv
 
 end Secp.Props.C07
